@@ -7,8 +7,12 @@ from engine.tlc import MachineryError
 
 
 def klass(name):
-    if name.startswith("t:") or name.startswith("re:"):
+    if ":" in name:
         return name
+    if name == "huge":
+        return "int"
+    if name.startswith("D_"):
+        return "dict"
     for pre, k in (("i", "int"), ("b", "bool"), ("f", "float"), ("L", "list"), ("T", "tuple")):
         if name.startswith(pre) and name not in ("abc", "abd", "empty"):
             return k
@@ -18,7 +22,9 @@ def klass(name):
 def run(prop, tier, seed, ctx):
     ctx.assumptions += ["contract table Holds(A, l, r) of specs/Assertions.tla (Python relation + documented tolerance "
                         "+ string normalisation); proxies are produced by real call() on a student module",
-                        "identity, regex, output, type and dataclass assertions are not in the table yet"]
+                        "type assertions cover builtin classes, their names, generic aliases (object and string) and the literal forms; "
+                        "heterogeneous containers against element-typed expectations are left unspecified (complement law only); "
+                        "dataclass assertions are not in the table yet"]
     ctx.cov["rule"] = ("case = (assertion, left value, right value) cell of the table, replayed in the four wrapping "
                        "combinations (both argument orders are separate cells), plus every unit_test outcome sequence; "
                        "non-trivial = operands of different value or class; distinct = distinct cell")
